@@ -191,3 +191,42 @@ func VerifC03CutLookupWire(s *Store, name []byte, qclass uint16) (uint32, bool) 
 func VerifC03WireCounters() [4]int64 {
 	return [4]int64{wireFastServed.Value(), wireChaseServed.Value(), wireCutServed.Value(), wireFailureServed.Value()}
 }
+
+// ---- background refresh
+
+// VerifC03SyncPrefetch replaces the worker goroutines of the prefetch queue by
+// a worker-less queue of the same kind, so that the refreshes handleCacheHit
+// queues are run by VerifC03DrainPrefetch on the caller's goroutine (the real
+// processPrefetch, deterministically). No-op when prefetch is disabled.
+func VerifC03SyncPrefetch(c *Cache) {
+	if c.prefetchQueue == nil {
+		return
+	}
+	c.prefetchQueue.Stop()
+	c.prefetchQueue = NewPrefetchQueue(0, 1024, c.metrics)
+}
+
+// VerifC03DrainPrefetch runs every queued refresh through processPrefetch in
+// queue order and reports the key and the entry each one was queued for.
+func VerifC03DrainPrefetch(c *Cache, after func(key uint64, refreshed *CacheEntry)) int {
+	if c.prefetchQueue == nil {
+		return 0
+	}
+	n := 0
+	for {
+		select {
+		case item := <-c.prefetchQueue.items:
+			c.prefetchQueue.processPrefetch(item)
+			after(item.Key, item.Entry)
+			n++
+		default:
+			return n
+		}
+	}
+}
+
+// VerifC03Age moves the entry's admission time back so that 90% of its
+// lifetime has passed (inside any prefetch window, still live).
+func VerifC03Age(e *CacheEntry) {
+	e.stored = e.stored.Add(-e.ttl / 10 * 9)
+}
